@@ -53,4 +53,14 @@ EncBridge == kind = "enc" => \A P \in A!Precisions : \A cp \in A!Slots(P) :
        \* the new interval starts Scale * c above the old one (modulo 2^S, and shifted by one word when renormalising)
        /\ n.lower = (IF r1 < T THEN A!Wrap(A!Wrap(e.lower + Scale(e.range, N) * cp[1], S) * B, S)
                      ELSE A!Wrap(e.lower + Scale(e.range, N) * cp[1], S))
+\* Sealing rule (proofs/RangeSeal.tla, theorem SealNormal): in the normal situation the seal is the word pw of the theorem, pinned
+\* by NW - 1 zero words exactly when the top word of the upper end equals pw, and the decoder's first point over the sealed
+\* words followed by ANY continuation is pw * T + rest with the `rest` the theorem quantifies over
+SealBridge == (kind = "enc" /\ e.sitN = 0 /\ ~A!IsFresh(e)) =>
+    LET pw == (e.lower + T - 1) \div T
+        uw == IF e.lower + e.range = T * B THEN 0 ELSE (e.lower + e.range) \div T
+    IN /\ e.range >= T /\ e.lower + e.range <= T * B                                   \* hypotheses of the theorem
+       /\ A!SealWords(e) = <<pw>> \o (IF uw = pw THEN [i \in 1..(A!NW - 1) |-> 0] ELSE <<>>)
+       /\ \A sfx \in [1..(A!NW - 1) -> 0..A!WMax] :
+             A!DecNew(A!SealWords(e) \o sfx).point = (IF uw = pw THEN pw * T ELSE pw * T + A!WordsToNat(sfx, W))
 =============================================================================
